@@ -30,7 +30,13 @@ VOICES = {
 }
 
 
-SIG = {'osc': 'E', 'lp': 'E', 'mem': 'M', 'mem2': 'MMM', 'echo': 'D4', 'echo3': 'D3', 'dm': 'MD3', 'nest': '(E)M'}
+# inner edits: the same voice with one stateful call site inserted (kind -> edited kind); all sites of a voice are distinguishable
+VOICES['nestx'] = ('fn v_in{k}(x:float){{\n  self + x\n}}\nfn v_nest{k}(x:float){{\n  v_in{k}(x * {c}) + delay(5.0, x, 2.0) + mem(x)\n}}\n', 'v_nest{k}(a)')
+VOICES['dmx'] = ('fn v_in{k}(x:float){{\n  self + x\n}}\nfn v_dm{k}(x:float){{\n  v_in{k}(x) + delay(3.0, mem(x), 1.0) + {c}\n}}\n', 'v_dm{k}(a)')
+INNER = {'nest': 'nestx', 'nestx': 'nest', 'dm': 'dmx', 'dmx': 'dm'}
+
+
+SIG = {'nestx': '(E)D5M', 'dmx': '(E)MD3', 'osc': 'E', 'lp': 'E', 'mem': 'M', 'mem2': 'MMM', 'echo': 'D4', 'echo3': 'D3', 'dm': 'MD3', 'nest': '(E)M'}
 
 
 def unambiguous(vs, op, pos, arg):
@@ -41,7 +47,31 @@ def unambiguous(vs, op, pos, arg):
         return False
     if op in ('insert', 'replace'):
         return SIG[arg[0]] not in sigs
+    if op == 'multi':
+        cur = list(vs)
+        for (o, p_, a) in arg:
+            if o == 'inner':
+                # an edited voice must not share any call-site shape with another voice (its sites could be claimed by that voice)
+                mine = set(leafsigs(SIG[cur[p_][0]])) | set(leafsigs(SIG[INNER[cur[p_][0]]]))
+                others = set(x for j, v in enumerate(cur) if j != p_ for x in leafsigs(SIG[v[0]]))
+                for (o2, _, a2) in arg:
+                    if o2 in ('insert', 'replace'):
+                        others |= set(leafsigs(SIG[a2[0]]))
+                if mine & others:
+                    return False
+                cur[p_] = (INNER[cur[p_][0]],) + tuple(cur[p_][1:])
+            else:
+                if not unambiguous(cur, o, p_, a):
+                    return False
+                cur = apply_script(cur, o, p_, a)[0]
+        return len(set(SIG[v[0]] for v in cur)) == len(cur)
     return True
+
+
+def leafsigs(sig):
+    """'(E)D5M' -> ['E', 'D5', 'M']"""
+    import re
+    return re.findall(r'D\d+|[EM]', sig)
 
 
 def render(voices):
@@ -75,11 +105,37 @@ def scripts(rng, n):
         ([('nest', 1, '0.5'), ('echo3', 2, '1.0')], 'insert', 1, ('mem', 3, '1.0')),
         ([('mem', 1, '0.5'), ('mem2', 2, '1.0')], 'insert', 0, ('echo', 3, '1.0')),
     ]
+    fixed += [
+        # compound edits in ONE swap: a sibling inserted / deleted in front of an untouched voice AND a later voice edited inside
+        ([('osc', 1, '0.5'), ('nest', 2, '1.0')], 'multi', 0, [('insert', 0, ('mem2', 3, '2.0')), ('inner', 2, None)]),
+        ([('echo', 1, '0.5'), ('mem2', 2, '1.0'), ('dm', 3, '0.5')], 'multi', 0, [('delete', 0, None), ('inner', 1, None)]),
+        ([('echo', 1, '0.5'), ('nestx', 2, '1.0')], 'multi', 0, [('insert', 0, ('mem2', 3, '2.0')), ('inner', 2, None)]),
+        ([('mem2', 1, '0.5'), ('dm', 2, '1.0')], 'multi', 0, [('inner', 1, None)]),
+    ]
     for f in fixed:
         out.append(f)
+    kinds = [k for k in kinds if k not in ('nestx', 'dmx')]
     while len(out) < n:
         m = rng.randint(2, 3)
         vs = [(rng.choice(kinds), i + 1, rng.choice(['0.5', '0.25', '2.0'])) for i in range(m)]
+        if rng.random() < 0.3:
+            inn = [i for i, v in enumerate(vs) if v[0] in INNER]
+            if inn:
+                i = rng.choice(inn)
+                edits = []
+                if rng.random() < 0.5:
+                    p_ = rng.randint(0, i)
+                    edits.append(('insert', p_, (rng.choice(kinds), m + 1, '1.5')))
+                    edits.append(('inner', i + 1, None))
+                elif i > 0:
+                    p_ = rng.randint(0, i - 1)
+                    edits.append(('delete', p_, None))
+                    edits.append(('inner', i - 1, None))
+                else:
+                    edits.append(('inner', i, None))
+                if unambiguous(vs, 'multi', 0, edits):
+                    out.append((vs, 'multi', 0, edits))
+                continue
         op = rng.choice(['insert', 'insert', 'delete', 'replace', 'const'])
         pos = rng.randint(0, m if op == 'insert' else m - 1)
         arg = None
@@ -92,8 +148,32 @@ def scripts(rng, n):
     return out[:n]
 
 
+def apply_multi(vs, edits):
+    """-> (new voices, kept, new, inner [(oi, ni)])"""
+    cur = [(v, i, False) for i, v in enumerate(vs)]          # (voice, old index or None, edited inside)
+    for (o, p_, a) in edits:
+        if o == 'insert':
+            cur.insert(p_, (a, None, False))
+        elif o == 'delete':
+            del cur[p_]
+        elif o == 'replace':
+            cur[p_] = (a, None, False)
+        elif o == 'inner':
+            v, oi, _ = cur[p_]
+            cur[p_] = ((INNER[v[0]],) + tuple(v[1:]), oi, True)
+        else:
+            raise ValueError(o)
+    nv = [c[0] for c in cur]
+    kept = [(oi, ni) for ni, (_, oi, ed) in enumerate(cur) if oi is not None and not ed]
+    new = [ni for ni, (_, oi, _) in enumerate(cur) if oi is None]
+    inner = [(oi, ni) for ni, (_, oi, ed) in enumerate(cur) if oi is not None and ed]
+    return nv, kept, new, inner
+
+
 def apply_script(vs, op, pos, arg):
     """-> (new voices, kept [(oi,ni)], new [ni])"""
+    if op == 'multi':
+        return apply_multi(vs, arg)[:3]
     if op == 'insert':
         nv = vs[:pos] + [arg] + vs[pos:]
         kept = [(i, i if i < pos else i + 1) for i in range(len(vs))]
@@ -129,14 +209,15 @@ def run(tier, seed):
     qto = 5000 if quick else 30000
     for n, (vs, op, pos, arg) in enumerate(scr):
         nv, kept, newv = apply_script(vs, op, pos, arg)
+        inner = apply_multi(vs, arg)[3] if op == 'multi' else []
         po = os.path.join(gdir, 'p%03d_old.mmm' % n)
         pn = os.path.join(gdir, 'p%03d_new.mmm' % n)
         open(po, 'w').write(render(vs))
         open(pn, 'w').write(render(nv))
         # state-only check for the voice whose constant changed (its output legitimately changes)
-        jobs.append(('analysis', dict(cls=('checks.c06', 'SwapAnalysis'), path=po, new_path=pn, voices_kept=kept, voices_new=newv, mir_paths=mirs,
+        jobs.append(('analysis', dict(cls=('checks.c06', 'SwapAnalysis'), path=po, new_path=pn, voices_kept=kept, voices_new=newv, voices_inner=inner, mir_paths=mirs,
                                       steps=1, mode='inductive', query_timeout_ms=qto, time_budget_s=budget, seed=seed)))
-        meta.append(dict(old=[v[0] for v in vs], edit=op, pos=pos, arg=(arg[0] if isinstance(arg, tuple) else arg), kept=kept, new=newv, old_path=po, new_path=pn))
+        meta.append(dict(old=[v[0] for v in vs], edit=op, pos=pos, arg=(arg[0] if isinstance(arg, tuple) else ('+'.join('%s@%d' % (e[0], e[1]) for e in arg) if isinstance(arg, list) else arg)), kept=kept, inner=inner, new=newv, old_path=po, new_path=pn))
     res = run_jobs(jobs)
     npaths = nchecks = 0
     for r, m in zip(res, meta):
@@ -173,7 +254,7 @@ def run(tier, seed):
             rep.samples.append(dict(edit=tagname, kept=m['kept'], new=m['new'], feasible_paths=r['paths'], equalities_checked=r.get('checks')))
     cov = dict(states=max(1, npaths), transitions=max(1, rep.stats['queries']), traces_validated_against_impl=rep.replays, edit_pairs=len(scr),
                equalities_checked=nchecks, voice_kinds=sorted(VOICES),
-               bounds='%d scripted single edits (insert / delete / replace a voice at any position, change a constant; incl. near-copy insertions) over programs of 2-3 voices drawn from %d voice kinds; '
+               bounds='%d scripted edits (insert / delete / replace a voice at any position, change a constant, near-copy insertions, and compound edits: a sibling inserted / deleted in front of an untouched voice plus a later voice edited inside) over programs of 2-3 voices drawn from %d voice kinds; '
                       'pre-swap state fully symbolic; one post-swap sample with symbolic input; VM path + state-tree plan layer' % (len(scr), len(VOICES)))
     assumptions = ['"an edit that fails to compile leaves the running program unchanged" is control flow of the CLI recompile thread (channels / threads): not encoded',
                    'Machine::link_functions stubbed; WASM engine swap not encoded (its state hand-over uses the same state-tree plan, decided in C08)',
@@ -183,38 +264,69 @@ def run(tier, seed):
 
 def classify(m, d):
     if 'lost state word' in d['msg'] or 'differs from the uninterrupted run' in d['msg']:
-        if m['edit'] in ('insert', 'delete', 'replace'):
+        if m['edit'] in ('insert', 'delete', 'replace') and not m.get('inner'):
             return 'untouched-voice-lost:patch-count-score-prefers-partial-match'
     return '%s:%s@%d' % (d['msg'][:40], m['edit'], m['pos'])
 
 
+def site_list(sk, base=0, depth=0, out=None):
+    from mirsym.vmdriver import skel_total
+    if out is None:
+        out = []
+    if sk.get('children') is not None and sk.get('k', 'FnCall') == 'FnCall':
+        off = base
+        for c in sk['children']:
+            site_list(c, off, depth + 1, out)
+            off += skel_total(c)
+    else:
+        out.append((base, skel_total(sk), (sk.get('k'), skel_total(sk), depth)))
+    return out
+
+
 def confirm_state(m, d):
-    """real VM: set the witness state, swap before step 0, run 0 further steps is impossible (state is read after a step), so
-    compare 1-step runs: the untouched voices' state after (swap + 1 step) must equal their state after 1 step without swap."""
+    """real VM (mmdump replay): start from the witness state, hot-swap before step 0 and read the state storage right after
+    VmDspRuntime::try_hot_swap: untouched voices / untouched call sites inside edited voices must hold their pre-swap words at
+    their new address, inserted voices must be zero."""
     init = d.get('init_state')
     row = (d.get('inputs') or [[]])[0]
     base = dict(src_path=m['old_path'], backend='vm', steps=1, inputs=[row], init_state=init, now_start=d.get('now0', 0), timeout_s=20)
     try:
-        plain = common.replay(dict(base))['vm']
         swapped = common.replay(dict(base, swaps=[dict(at_step=0, src_path=m['new_path'])]))['vm']
         co = common.compile_program(m['old_path'])['bytecode']['program']
         cn = common.compile_program(m['new_path'])['bytecode']['program']
     except Exception as e:
         return False, dict(error=repr(e))
     from mirsym.vmdriver import skel_total
+    sko, skn = co['fns'][co['dsp_index']]['state_skeleton'], cn['fns'][cn['dsp_index']]['state_skeleton']
 
-    def ranges(p):
-        sk = p['fns'][p['dsp_index']]['state_skeleton']
+    def ranges(sk):
         out, off = [], 0
         for c in sk['children']:
             n = skel_total(c)
             out.append((off, n))
             off += n
         return out
-    ro, rn = ranges(co), ranges(cn)
-    ps, ss = (plain.get('state_after') or [[]])[0], (swapped.get('state_after') or [[]])[0]
+    ro, rn = ranges(sko), ranges(skn)
+    sw = (swapped.get('swaps') or [{}])[0]
+    ss = sw.get('state_after_swap')
+    if ss is None or init is None:
+        return False, dict(swap=sw, note='no post-swap state available')
     for (oi, ni) in m['kept']:
         (ao, so), (an_, sn) = ro[oi], rn[ni]
-        if ps[ao:ao + so] != ss[an_:an_ + sn]:
-            return True, dict(voice=(oi, ni), plain=ps[ao:ao + so], swapped=ss[an_:an_ + sn])
-    return False, dict(plain=ps, swapped=ss)
+        if init[ao:ao + so] != ss[an_:an_ + sn]:
+            return True, dict(voice=(oi, ni), before=init[ao:ao + so], after_swap=ss[an_:an_ + sn])
+    for (oi, ni) in m.get('inner') or []:
+        so_, sn_ = site_list(sko['children'][oi]), site_list(skn['children'][ni])
+        for (ra, words, sig) in so_:
+            mo = [x for x in so_ if x[2] == sig]
+            mn = [x for x in sn_ if x[2] == sig]
+            if len(mo) == 1 and len(mn) == 1:
+                b = init[ro[oi][0] + ra: ro[oi][0] + ra + words]
+                a_ = ss[rn[ni][0] + mn[0][0]: rn[ni][0] + mn[0][0] + words]
+                if a_ != b:
+                    return True, dict(edited_voice=(oi, ni), site=list(sig), before=b, after_swap=a_)
+    for ni in m.get('new') or []:
+        an_, sn = rn[ni]
+        if any(w != 0 for w in ss[an_:an_ + sn]):
+            return True, dict(new_voice=ni, after_swap=ss[an_:an_ + sn])
+    return False, dict(before=init, after_swap=ss)
